@@ -86,7 +86,11 @@ func (self *Interpreter) callFunc(span errors.Span, val value.Value, args []ast.
 		}
 
 		// push a scope into the closure
-		closure.Scopes = append(closure.Scopes, make(map[string]*value.Value))
+		// (onto a copy of the captured scope list: the captured slice shares its backing array with the scope stack of
+		// the function which created the closure, an `append` would overwrite a scope which that function pushed later)
+		callScopes := make([]map[string]*value.Value, len(closure.Scopes), len(closure.Scopes)+1)
+		copy(callScopes, closure.Scopes)
+		closure.Scopes = append(callScopes, make(map[string]*value.Value))
 		self.callStackSize++
 
 		// use the closure's scopes as the scopes of the current module
